@@ -6,7 +6,8 @@ From Coq Require Import List ZArith Arith Sorted.
 From Mamba Require Import Invariants.Graph Invariants.GraphOfEdges Invariants.ColourModel Invariants.ColourSpec
   Invariants.ColourProofs Invariants.ColourGreedy Invariants.DegenProofs
   Invariants.CliqueSpec Invariants.CliqueRef Invariants.CliqueRefProofs Invariants.ColourRef Invariants.ColourRefProofs
-  Invariants.ChromPolyModel Invariants.ChromPolyProofs.
+  Invariants.ChromPolyModel Invariants.ChromPolyProofs
+  Invariants.CliqueModel Invariants.CliqueLoop Invariants.CliqueBK Invariants.CliqueNumbers.
 Import ListNotations.
 Open Scope Z_scope.
 
@@ -61,6 +62,35 @@ Example C09_chromatic_polynomial_nonvacuous :
   chromatic_polynomial g = Some [0; 6; -15; 14; -6; 1] /\
   map (eval_poly [0; 6; -15; 14; -6; 1]) [2; 3; 4] = [0; 18; 168].
 Proof. vm_compute. split; reflexivity. Qed.
+
+(* AllMaximalCliques (Bron-Kerbosch with pivoting and the swap-remove walk over P): for every
+   simple graph the search does not panic or run out of fuel, everything it reports is a maximal
+   clique, and every maximal clique s is reported exactly once ([count s L] is the number of
+   entries of L that list the vertex set s). *)
+Theorem C09_all_maximal_cliques : forall g, wf g ->
+  exists L, all_maximal_cliques g = Some L /\
+    (forall c, In c L -> maximal_clique g c) /\
+    (forall s, maximal_clique g s -> count s L = 1%nat).
+Proof. exact all_maximal_cliques_correct. Qed.
+Print Assumptions C09_all_maximal_cliques.
+
+(* CliqueNumber (the same search keeping the largest |R| reported) is the clique number, and
+   IndependenceNumber (the same on the complement view) is the independence number. *)
+Theorem C09_clique_number : forall g, wf g ->
+  exists w, clique_number_bk g = Some w /\ clique_number g w.
+Proof. exact clique_number_bk_correct. Qed.
+Print Assumptions C09_clique_number.
+
+Theorem C09_independence_number : forall g, wf g ->
+  exists a, independence_number_bk g = Some a /\ independence_number g a.
+Proof. exact independence_number_bk_correct. Qed.
+Print Assumptions C09_independence_number.
+
+Example C09_cliques_nonvacuous :
+  let g := of_edges 6 [(0,1); (1,2); (2,0); (2,3); (3,4); (4,5); (5,3); (0,3)]%nat in
+  all_maximal_cliques g = Some [[1; 0; 2]; [3; 0; 2]; [3; 5; 4]]%nat /\
+  clique_number_bk g = Some 3%nat /\ independence_number_bk g = Some 2%nat.
+Proof. vm_compute. repeat split. Qed.
 
 (* ---- proved reference oracles: the model line of the correspondence for the values whose
    algorithms (Bron-Kerbosch with pivoting, DSATUR branch and bound) are not proved.  Each is an
